@@ -4,6 +4,7 @@ from vv.registry import PROPS, COMMON_ASSUME, rc
 harness("h_c16", ["harness/h_c16.cc"], libs=("csg",))
 
 PROPS["C16"] = dict(
+    repo_targets=("votca_tools", "votca_csg"),
     parts=[rc("h_c16", quick=dict(cases=6000, procs=8, args=["--enum", "5"], budget_s=900),
               thorough=dict(cases=400000, procs=16, args=["--enum", "7"], budget_s=2400))],
     rule="tbd",
